@@ -90,7 +90,7 @@ spec(lean="bt_from_tree", module="AlgoBranchTree", file="swcgeom/core/branch_tre
      ret="BranchTreeObj", fuel=True, tree_cols={"tree": {"id": "ids", "pid": "pids"}},
      # GLUE (trusted, see design_notes/session4/branchtree.md):
      # * every column of the new table is the old column gathered by `id_map` (recorded as the field `src`), then the two topology columns are replaced
-     skip_stmts=["ndata = {k: tree.get_ndata(k)[id_map].copy() for k in tree.keys()}", "ndata.update(id=new_id, pid=new_pid)"],
+     skip_stmts=["ndata = {k: tree.get_ndata(k)[id_map].copy() for k in tree.keys()}", "ndata[tree.names.id] = new_id", "ndata[tree.names.pid] = new_pid"],
      # * the constructor call: the new object's modelled attributes
      stmt_subst={"branch_tree = cls(n_nodes, **ndata, source=tree.source, names=tree.names)":
                  "branch_tree = BranchTreeObj(n_nodes, new_id, new_pid, id_map)"},
